@@ -26,7 +26,8 @@ RULE = ("extended ACLs as programs (1..10 remarks/ACEs over the C01 grammar: eve
         "directions, all switch settings and version strings; stand-alone Ace, Address, AddressAg and AddrGroup objects "
         "(members that cannot be expressed on the target must raise ValueError: rejected_as_expected). judged = platform "
         "setter calls monitored; programs = ACLs converted; distinct non-trivial = (class, direction, grouped, #splits, "
-        "member kinds, named ports, switches)")
+        "member kinds, named ports, switches)"
+        " Round 4: repeats inside the ACL (separator remark twice, exact duplicates, an entry equal to one piece of an earlier multi-port entry).")
 ASSUMPTIONS = ["entries with a multi-port neq are owned by C19 and excluded", "split entries keep the original's sequence number "
                "(uniqueness is not demanded)", "sequence numbers of address-group members are not judged (IOS members carry "
                "none natively)", "per-platform name vocabularies come from the library's tables; numbers from oracle/names.py"]
